@@ -446,4 +446,213 @@ theorem mem_insertAt (p : TBox → Bool) (after : Bool) (b : TBox) (t : List TBo
         | inr h' => exact Or.inr (List.mem_cons_of_mem _ h')
 
 
+/-! ### in-place patches and their boxes -/
+
+theorem trun_box_bound (start : Nat) (t : List TBox) (h : t.any isTrun = true)
+    (hd : trunDop t = true) :
+    ∃ b, b ∈ place start (tboxes t) ∧ b.typ = "trun" ∧ b.pos = start + offsetOf isTrun t ∧
+      20 + b2n (trunFsf t) 4 ≤ b.size := by
+  induction t generalizing start with
+  | nil => simp at h
+  | cons x r ih =>
+    cases x with
+    | trun dop fsf per sz d =>
+      simp only [trunDop, firstSome, gTrunDop, Option.getD_some] at hd
+      subst hd
+      refine ⟨⟨"trun", start, TBox.size (.trun true fsf per sz d)⟩, ?_, rfl, ?_, ?_⟩
+      · simp [tboxes, place, TBox.name]
+      · simp [offsetOf, isTrun]
+      · simp only [trunFsf, firstSome, gTrunFsf, Option.getD_some, TBox.size, b2n, if_true]
+        generalize 4 * per * sz.length = k
+        cases fsf <;> simp <;> omega
+    | _ =>
+      simp only [List.any_cons, isTrun, Bool.false_or] at h
+      have hd' : trunDop r = true := by simpa [trunDop, firstSome, gTrunDop] using hd
+      obtain ⟨b, hb, ht, hp, hs⟩ := ih (start + TBox.size _) h hd'
+      refine ⟨b, ?_, ht, ?_, ?_⟩
+      · simp only [tboxes, List.map_cons, place]
+        exact List.mem_cons_of_mem _ hb
+      · simp only [offsetOf, isTrun, Bool.false_eq_true, if_false]
+        omega
+      · simpa [trunFsf, firstSome, gTrunFsf] using hs
+
+theorem gSaioSize_none (x : TBox) (h : isSaio x = false) : gSaioSize x = none := by
+  cases x <;> simp [isSaio] at h <;> rfl
+
+theorem saio_box_exact (start : Nat) (t : List TBox) (h : t.any isSaio = true) :
+    (⟨"saio", start + offsetOf isSaio t, (firstSome gSaioSize t).getD 0⟩ : Placed)
+      ∈ place start (tboxes t) := by
+  induction t generalizing start with
+  | nil => simp at h
+  | cons x r ih =>
+    by_cases hx : isSaio x = true
+    · cases x <;> simp [isSaio] at hx
+      simp [tboxes, place, TBox.name, offsetOf, isSaio, firstSome, gSaioSize]
+    · have hx' : isSaio x = false := by simpa using hx
+      simp only [List.any_cons, hx', Bool.false_or] at h
+      have := ih (start + x.size) h
+      simp only [tboxes, List.map_cons, place, offsetOf, hx', Bool.false_eq_true, if_false,
+        firstSome, gSaioSize_none x hx']
+      rw [← Nat.add_assoc]
+      exact List.mem_cons_of_mem _ this
+
+theorem modFirst_id (f : TBox → Option TBox) (t : List TBox) (h : ∀ x, x ∈ t → f x = none) :
+    modFirst f t = t := by
+  induction t with
+  | nil => rfl
+  | cons x r ih =>
+    simp only [modFirst, h x List.mem_cons_self]
+    rw [ih (fun y hy => h y (List.mem_cons_of_mem _ hy))]
+
+theorem postSaio_noop (w : Nat) (hs bug : Bool) (t : List TBox) (h : t.any isSaio = false) :
+    modFirst (fPostSaio w hs bug) t = t := by
+  apply modFirst_id
+  intro x hx
+  cases x with
+  | saio v a l =>
+    have : t.any isSaio = true := List.any_eq_true.mpr ⟨_, hx, rfl⟩
+    simp [h] at this
+  | _ => rfl
+
+/-! ### PIFF clones carry the entries of the senc -/
+
+/-- every PIFF box of `t` is a clone of the (first) senc described by `se` -/
+def PiffsFrom (se : Option (Bool × List Nat)) (t : List TBox) : Prop :=
+  ∀ o e, TBox.piff o e ∈ t → se = some (o, e)
+
+theorem piffs_modFirst (se : Option (Bool × List Nat)) (f : TBox → Option TBox)
+    (hf : ∀ x y, f x = some y → isPiff y = false) (t : List TBox) (h : PiffsFrom se t) :
+    PiffsFrom se (modFirst f t) := by
+  intro o e hm
+  cases mem_modFirst f t _ hm with
+  | inl h' => exact h o e h'
+  | inr h' =>
+    obtain ⟨x, _, hx⟩ := h'
+    have := hf x _ hx
+    simp [isPiff] at this
+
+theorem piffs_insertAt (se : Option (Bool × List Nat)) (p : TBox → Bool) (after : Bool) (b : TBox)
+    (hb : ∀ o e, b = .piff o e → se = some (o, e)) (t : List TBox) (h : PiffsFrom se t) :
+    PiffsFrom se (insertAt p after b t) := by
+  intro o e hm
+  cases mem_insertAt p after b t _ hm with
+  | inl h' => exact hb o e h'.symm
+  | inr h' => exact h o e h'
+
+theorem stable_gSenc : Stable gSenc := by
+  constructor <;> intros <;> simp [gSenc]
+
+theorem piffs_insertPiffs (se : Option (Bool × List Nat)) (n : Nat) (t : List TBox)
+    (hs : firstSenc t = se) (h : PiffsFrom se t) : PiffsFrom se (insertPiffs n t) := by
+  induction n generalizing t with
+  | zero => exact h
+  | succ n ih =>
+    simp only [insertPiffs]
+    apply ih
+    · unfold firstSenc at hs ⊢
+      rw [firstSome_insertPiff gSenc stable_gSenc.piff, hs]
+    · unfold insertPiff
+      split
+      · exact h
+      · rename_i o e heq
+        apply piffs_insertAt
+        · intro o' e' hb
+          cases hb
+          rw [← hs, heq]
+        · exact h
+
+theorem count_zero_none (q : TBox → Bool) (t : List TBox) (h : count q t = 0) :
+    ∀ x, x ∈ t → q x = false := by
+  intro x hx
+  by_cases hq : q x = true
+  · have : x ∈ t.filter q := List.mem_filter.mpr ⟨hx, hq⟩
+    simp only [count] at h
+    have := List.length_pos_of_mem this
+    omega
+  · simpa using hq
+
+
+/-! ### the three late stages together -/
+
+/-- pass 1 saio value (when reset), `saio.post_encode`, `trun.post_encode` -/
+def late (c : Prop) [Decidable c] (p w b m : Nat) (hs bug : Bool) (t : List TBox) : List TBox :=
+  modFirst (fPostTrun b m) (modFirst (fPostSaio w hs bug) (if c then modFirst (fSetSaio1 p) t else t))
+
+theorem firstSome_late {α : Type} (g : TBox → Option α) (hg : Stable g) (c : Prop) [Decidable c]
+    (p w b m : Nat) (hs bug : Bool) (t : List TBox) :
+    firstSome g (late c p w b m hs bug t) = firstSome g t := by
+  unfold late
+  rw [firstSome_postTrun g (fun d f p s x1 x2 => hg.trun d d f p s x1 x2), firstSome_postSaio g hg]
+  split
+  · exact firstSome_setSaio1 g hg p t
+  · rfl
+
+theorem tboxes_late (c : Prop) [Decidable c] (p w b m : Nat) (hs bug : Bool) (t : List TBox) :
+    tboxes (late c p w b m hs bug t) = tboxes t := by
+  unfold late
+  rw [tboxes_modFirst _ (fun x y h => ⟨(fPostTrun_keeps b m x y h).1, (fPostTrun_keeps b m x y h).2.1⟩),
+    tboxes_modFirst _ (fun x y h => ⟨(fPostSaio_keeps w hs bug x y h).1, (fPostSaio_keeps w hs bug x y h).2.1⟩)]
+  split
+  · exact tboxes_modFirst _ (fun x y h => ⟨(fSetSaio1_keeps p x y h).1, (fSetSaio1_keeps p x y h).2.1⟩) t
+  · rfl
+
+theorem offsetOf_late_senc (c : Prop) [Decidable c] (p w b m : Nat) (hs bug : Bool) (t : List TBox) :
+    offsetOf isSenc (late c p w b m hs bug t) = offsetOf isSenc t := by
+  unfold late
+  rw [offsetOf_modFirst _ _ (fun x y h => ⟨(fPostTrun_keeps b m x y h).2.2.1, (fPostTrun_keeps b m x y h).2.1⟩),
+    offsetOf_modFirst _ _ (fun x y h => ⟨(fPostSaio_keeps w hs bug x y h).2.2.1, (fPostSaio_keeps w hs bug x y h).2.1⟩)]
+  split
+  · exact offsetOf_modFirst _ _ (fun x y h => ⟨(fSetSaio1_keeps p x y h).2.2.1, (fSetSaio1_keeps p x y h).2.1⟩) t
+  · rfl
+
+theorem any_late (q : TBox → Bool) (hq : Stable (gIs q)) (c : Prop) [Decidable c]
+    (p w b m : Nat) (hs bug : Bool) (t : List TBox) :
+    (late c p w b m hs bug t).any q = t.any q := by
+  rw [any_eq_firstSome, any_eq_firstSome, firstSome_late _ hq]
+
+theorem any_trafEdited (q : TBox → Bool) (hq : Stable (gIs q)) (o : Opts) (t : List TBox) :
+    (trafEdited o t).any q = t.any q := by
+  rw [any_eq_firstSome, any_eq_firstSome, firstSome_trafEdited _ hq]
+
+/-- the saio offsets in the final list, when pass 1 saw exactly one offset -/
+theorem saioOffsets_late (c : Prop) [Decidable c] (p w b m x : Nat) (hs bug : Bool) (t : List TBox)
+    (h : saioOffsets t = some [x]) :
+    saioOffsets (late c p w b m hs bug t) =
+      some [if hs && decide ((if c then p else x) ≠ w) && !bug then w else (if c then p else x)] := by
+  unfold late saioOffsets
+  rw [firstSome_postTrun _ (by intros; rfl)]
+  by_cases hc : c
+  · simp only [hc, if_true]
+    exact saioOffsets_postSaio w p hs bug _ (saioOffsets_setSaio1 p x t h)
+  · simp only [hc, if_false]
+    exact saioOffsets_postSaio w x hs bug _ h
+
+theorem trunOffset_late (c : Prop) [Decidable c] (p w b m : Nat) (hs bug : Bool) (t : List TBox)
+    (h : t.any isTrun = true) : (b : Int) + trunOffset (late c p w b m hs bug t) = (m : Int) := by
+  unfold late
+  apply trunOffset_postTrun
+  rw [any_modFirst isTrun _ (fun x y h => (fPostSaio_keeps w hs bug x y h).2.2.2.1)]
+  split
+  · rw [any_modFirst isTrun _ (fun x y h => (fSetSaio1_keeps p x y h).2.2.2.1)]
+    exact h
+  · exact h
+
+theorem rewrite_traf (o : Opts) (s : Seg) : ∃ (c : Prop) (_ : Decidable c) (p w m : Nat),
+    (rewrite o s).traf = late c p w (rewrite o s).base m (hasSenc (trafEdited o s.traf)) o.bugSaio (trafEdited o s.traf) :=
+  ⟨_, inferInstance, _, _, _, rfl⟩
+
+/-! ### consequences of `shapeOk` -/
+
+theorem shape_trun (s : Seg) (h : shapeOk s = true) : s.traf.any isTrun = true := by
+  apply count_pos_any
+  simp only [shapeOk, Bool.and_eq_true, beq_iff_eq] at h
+  omega
+
+theorem shape_nopiff (s : Seg) (h : shapeOk s = true) : PiffsFrom (firstSenc s.traf) s.traf := by
+  intro o e hm
+  simp only [shapeOk, Bool.and_eq_true, beq_iff_eq] at h
+  have := count_zero_none isPiff s.traf h.1.2 _ hm
+  simp [isPiff] at this
+
+
 end DashLive.SegmentRewrite
